@@ -2,7 +2,8 @@ use crate::{
     ast::*,
     error::{ParseErrorMessage, ParserError, SplError},
     parser::utility::{
-        affected, confusable, expect, ignore_until0, ignore_until1, info, many, parse_list,
+        affected, confusable, expect, ignore_until0, ignore_until1, info, many, or_fresh,
+        parse_list,
     },
     tokens::{self, IntResult, Token, TokenStream, TokenType},
     ToRange,
@@ -587,7 +588,7 @@ impl Parser for ParameterDeclaration {
 
         match this {
             Some(Self::Valid { .. }) => {
-                affected(this, alt((|input| parse_valid(this, input), parse_error)))(input)
+                affected(this, alt((or_fresh(this, parse_valid), parse_error)))(input)
             }
             _ => alt((|input| parse_valid(None, input), parse_error))(input),
         }
@@ -639,7 +640,7 @@ impl Parser for Argument {
             // see `Expression::parse`
             Some(Self::Valid(expr)) if !misses_rhs(expr) => affected(
                 Some(expr),
-                alt((|input| parse_valid(Some(expr), input), parse_error)),
+                alt((or_fresh(Some(expr), parse_valid), parse_error)),
             )(input)?,
             _ => alt((|input| parse_valid(None, input), parse_error))(input)?,
         };
